@@ -8,7 +8,8 @@ schema/value generators of gen.py reach too rarely to count as covered.
    and the failing first steps of a history on a shared configuration;
  * name_clash_case: unions whose branch / symbol names collide with the names the serializer's union lookup registers:
    enums with a symbol called Null (String, Int, ...) next to a null branch, named types sharing their short name across
-   namespaces (the un-namespaced one first or last);
+   namespaces (the un-namespaced one first or last), unnamed branches designated by their type name (Long, Date, String ...)
+   next to a named type whose unqualified name is that same word;
  * decimal_case: decimals over bytes and over fixed of every size 0..40, boundary and negative values.
 
 Every expectation attached to these inputs comes from the extracted model / specification (codec.spec_batch, the model's
@@ -69,7 +70,38 @@ def name_clash_case(rng):
     b = Builder()
     r = rng.random()
     branches = []
-    if r < 0.55:
+    if r >= 0.8:
+        # an unnamed branch, designated by its TYPE NAME (Long, String, Date, Decimal, Array ...: the name the union lookup registers
+        # for it and the deserializer reports), next to a named type whose UNQUALIFIED name is that same word in some namespace
+        # (the lookup also registers unqualified names of named branches as a convenience -- which must only fill gaps)
+        TYPE_NAMED = [("long", None, "Long"), ("int", None, "Int"), ("string", None, "String"), ("bytes", None, "Bytes"), ("boolean", None, "Boolean"),
+                      ("double", None, "Double"), ("float", None, "Float"), ("int", "date", "Date"), ("long", "timestamp-millis", "TimestampMillis"),
+                      ("long", "time-micros", "TimeMicros"), ("string", "uuid", "Uuid"), ("bytes", ("decimal", 1, 6), "Decimal"),
+                      ("bytes", "big-decimal", "BigDecimal"), ("array", None, "Array"), ("map", None, "Map")]
+        used_t = set()
+        for _ in range(rng.choice([1, 1, 2])):
+            t, lt, word = rng.choice(TYPE_NAMED)
+            if t in used_t:
+                continue
+            used_t.add(t)
+            if t == "array":
+                un = b.add(N("array", items=b.add(N("int"))))
+            elif t == "map":
+                un = b.add(N("map", values=b.add(N("string"))))
+            else:
+                un = b.add(N(t, lt=lt))
+            full = rng.choice(["wide", "calendar", "a.b", "ns"]) + "." + word
+            kind = rng.choice(["record", "record", "enum", "fixed"])
+            if kind == "record":
+                i = b.add(N(rng.choice(["long", "int", "string", "bytes"])))
+                nm = b.add(N("record", name=full, fields=[("value", i)]))
+            elif kind == "enum":
+                nm = b.add(N("enum", name=full, symbols=rng.choice([["A", "B"], ["Null", "B"], [word, "B"]])))
+            else:
+                nm = b.add(N("fixed", name=full, size=rng.choice([1, 2, 8])))
+            branches += [un, nm] if rng.random() < 0.5 else [nm, un]
+        extra = rng.choice([[], [], ["null"], ["null"], ["boolean"] if "boolean" not in used_t else []])
+    elif r < 0.45:
         # a null branch and an enum with symbols called like the names the lookup registers
         n = rng.randint(1, 4)
         syms = ["Yes", "No", "Maybe", "S0"][:n]
@@ -227,6 +259,40 @@ class RecCase:
                 form = self.rng.choice(self.FORMS)
                 out.append(("ser %s %s%s%s" % (self.spec["schema"], self.render(order, form), self.slow, (" " + sink) if sink else ""),
                             perm, sub, form))
+        return out
+
+    def render_skips(self, order, skips, form):
+        """struct / struct variant presentation with skip events: `skips` = [(position in the field list, field index)] --
+        `(skipfield xF)` = SerializeStruct::skip_field(F), what a derived Serialize impl calls at the DECLARED position of a
+        field left out by #[serde(skip_serializing_if)]; the announced length counts the presented fields only (as derive does)"""
+        hx = C.hx
+        evs = [" (%s %s)" % (hx(self.fields[i][0]), self.fields[i][1]) for i in order]
+        for pos, i in sorted(skips, key=lambda x: -x[0]):
+            evs.insert(pos, " (skipfield %s)" % hx(self.fields[i][0]))
+        if form == "variant":
+            return "(struct_variant %s 1 %s %d%s)" % (hx("E"), hx(self.rec.name), len(order), "".join(evs))
+        return "(struct %s %d%s)" % (hx(self.rng.choice([self.rec.name, "X"])), len(order), "".join(evs))
+
+    def skip_lines(self, max_orders, max_subsets, max_lines=400):
+        """derived structs whose declared field order is any permutation of the schema's and whose null-holding fields are
+        skipped (skip_field event at the declared position): every declared order x every non-empty subset of skipped nullable
+        fields -- the declared order being a permutation of ALL fields, the skip event of each skipped field sits where the
+        field is declared: before / between / after presented fields, next expected or not, successors buffered or not.
+        -> [(line, declared order, skipped, form)]"""
+        out = []
+        subs = [s_ for s_ in self.omit_subsets(max_subsets + 1) if s_]
+        for perm in self.orders(max_orders):
+            for sub in subs:
+                order, skips = [], []
+                for i in perm:
+                    if i in sub:
+                        skips.append((len(order), i))
+                    else:
+                        order.append(i)
+                form = self.rng.choice(["struct", "struct", "variant"])
+                out.append(("ser %s %s%s" % (self.spec["schema"], self.render_skips(order, skips, form), self.slow), perm, sub, form + "+skip_field"))
+        if len(out) > max_lines:
+            out = self.rng.sample(out, max_lines)
         return out
 
     def duplicate_lines(self, max_orders):
